@@ -79,6 +79,10 @@ def bounds_table():
 def main():
     t = open(os.path.join(V, 'DESIGN.tmpl.md')).read()
     t = t.replace('FIXED_TABLE', fixed_table()).replace('SEED_TABLE', seed_table())
+    k = json.load(open(os.path.join(V, 'known_findings.json')))
+    metas = [json.load(open(m)) for m in glob.glob(os.path.join(V, 'seeded', '*', 'meta.json'))]
+    det = sum(1 for m in metas if any(isinstance(r, dict) and r.get('detected') for r in m.get('checks', {}).values()))
+    t = t.replace('FIXED_COUNT', str(len(k['fixed']))).replace('SEED_COUNT', str(len(metas))).replace('SEED_DETECTED', str(det))
     t = t.replace('THOROUGH_TABLE', tier_table()).replace('BOUNDS_TABLE', bounds_table())
     open(os.path.join(V, 'DESIGN.md'), 'w').write(t)
 
